@@ -184,6 +184,15 @@ impl Default for Matcher {
     }
 }
 
+/// The bytes of a needle that is stored as codepoints but only contains ascii
+/// chars (`None` if it contains any other char).
+fn ascii_needle(needle: &[char]) -> Option<Vec<u8>> {
+    needle
+        .iter()
+        .map(|&c| c.is_ascii().then_some(c as u8))
+        .collect()
+}
+
 impl Matcher {
     /// Creates a new matcher instance, note that this will eagerly allocate a
     /// fairly large chunk of heap memory (around 135KB currently but subject to
@@ -276,10 +285,12 @@ impl Matcher {
                     indices,
                 )
             }
-            (Utf32Str::Ascii(_), Utf32Str::Unicode(_)) => {
+            (Utf32Str::Ascii(_), Utf32Str::Unicode(needle)) => {
                 // a purely ascii haystack can never be transformed to match
-                // a needle that contains non-ascii chars since we don't allow gaps
-                None
+                // a needle that contains non-ascii chars since we don't allow gaps,
+                // a needle stored as codepoints can still be pure ascii though
+                let needle = ascii_needle(needle)?;
+                self.fuzzy_matcher_impl::<INDICES>(haystack_, Utf32Str::Ascii(&needle), indices)
             }
             (Utf32Str::Unicode(haystack), Utf32Str::Ascii(needle)) => {
                 if let &[needle] = needle {
@@ -402,10 +413,12 @@ impl Matcher {
                     indices,
                 )
             }
-            (Utf32Str::Ascii(_), Utf32Str::Unicode(_)) => {
+            (Utf32Str::Ascii(_), Utf32Str::Unicode(needle)) => {
                 // a purely ascii haystack can never be transformed to match
-                // a needle that contains non-ascii chars since we don't allow gaps
-                None
+                // a needle that contains non-ascii chars since we don't allow gaps,
+                // a needle stored as codepoints can still be pure ascii though
+                let needle = ascii_needle(needle)?;
+                self.fuzzy_match_greedy_impl::<INDICES>(haystack, Utf32Str::Ascii(&needle), indices)
             }
             (Utf32Str::Unicode(haystack), Utf32Str::Ascii(needle)) => {
                 let (start, _) = self.prefilter_non_ascii(haystack, needle_, true)?;
@@ -488,10 +501,12 @@ impl Matcher {
                 }
                 self.substring_match_ascii::<INDICES>(haystack, needle, indices)
             }
-            (Utf32Str::Ascii(_), Utf32Str::Unicode(_)) => {
+            (Utf32Str::Ascii(_), Utf32Str::Unicode(needle)) => {
                 // a purely ascii haystack can never be transformed to match
-                // a needle that contains non-ascii chars since we don't allow gaps
-                None
+                // a needle that contains non-ascii chars since we don't allow gaps,
+                // a needle stored as codepoints can still be pure ascii though
+                let needle = ascii_needle(needle)?;
+                self.substring_match_impl::<INDICES>(haystack, Utf32Str::Ascii(&needle), indices)
             }
             (Utf32Str::Unicode(haystack), Utf32Str::Ascii(needle)) => {
                 if let &[needle] = needle {
@@ -742,10 +757,18 @@ impl Matcher {
                     indices,
                 )
             }
-            (Utf32Str::Ascii(_), Utf32Str::Unicode(_)) => {
+            (Utf32Str::Ascii(_), Utf32Str::Unicode(needle)) => {
                 // a purely ascii haystack can never be transformed to match
-                // a needle that contains non-ascii chars since we don't allow gaps
-                return None;
+                // a needle that contains non-ascii chars since we don't allow gaps,
+                // a needle stored as codepoints can still be pure ascii though
+                let needle = ascii_needle(needle)?;
+                return self.exact_match_impl::<INDICES>(
+                    haystack,
+                    Utf32Str::Ascii(&needle),
+                    start,
+                    end,
+                    indices,
+                );
             }
             (Utf32Str::Unicode(haystack), Utf32Str::Ascii(needle)) => {
                 let matched = haystack[start..end]
